@@ -341,6 +341,10 @@ class Ledger:
         self.__b = 0
         self.__a__b = 7
 
+    @icontract.require(lambda self, x: x < self.__limit, 'below the limit of the ledger')
+    def put(self, x):
+        return x
+
 
 class Savings(Ledger):
     # the sub-class has private attributes of the same names; a condition may also spell out the base's mangled name
@@ -391,7 +395,7 @@ def scope_cases(ctx, only=None):
         for is_async in (False, True):
             cells.append(("late-bound closure variable/%s%s" % (role, "/async" if is_async else ""), ("late", role, is_async)))
     for name in ("pay/closed", "pay/over-limit", "quote", "apay/closed", "inner", "two-classes", "suffix", "comprehension",
-                 "sub-class-instance"):
+                 "sub-class-instance", "base-contract-on-sub-class"):
         cells.append(("private attribute/%s" % name, ("private", name)))
     for label, spec in cells:
         if only and only != label:
@@ -417,12 +421,16 @@ def scope_cases(ctx, only=None):
                     "suffix": (lambda: mod_pre.mod.Savings().suffix(), "self.__b and self.__a__b[0]"),
                     "comprehension": (lambda: mod_pre.mod.Savings().scan(), "all(v > 0 for v in self.__xs)"),
                     "sub-class-instance": (lambda: mod_pre.mod.Vault().take(7), "x <= self.__limit and x <= self._Ledger__limit"),
+                    # the contract is the BASE's; the instance belongs to a sub-class with a private attribute of that name
+                    "base-contract-on-sub-class": (lambda: mod_pre.mod.Savings().put(2000), "x < self.__limit"),
                 }[spec[1]]
                 got = outcome(fn)
                 if spec[1] == "pay/over-limit":
                     want_lines = ["self.__limit was 10", "self.__open was True", "x was 50"]
                 if spec[1] in ("two-classes", "sub-class-instance"):
                     want_lines = ["self.__limit was 5", "x was 7"]
+                if spec[1] == "base-contract-on-sub-class":
+                    want_lines = ["self.__limit was 1000", "x was 2000"]
                 if spec[1] == "suffix":
                     want_lines = ["self.__b was 0"]
                 if spec[1] == "comprehension":
